@@ -73,9 +73,73 @@ def collect(ctx):
     return progs, feats, kinds
 
 
+def arity_oracle(ctx, progs, res):
+    """argument COUNT (harness/src/c03arity.rs), model-free: (a) `CALLN` rows — at every call / dyncall /
+    traitcall / constr node of every REAL stage dump of every accepted program the number of written
+    arguments equals the number of parameters of the callee's own annotation and of the declaration it
+    names; (b) the `arity:` catalogue is complete (every call form has accepted twins) — its variants are
+    judged by the ill-typed oracle in run(); (c) an ACCEPTED wrong-count variant must be flagged by the
+    count oracle and by `Wt.errs` on its Core dump (otherwise those two are blind: tie broken)."""
+    calln, summary = {}, None
+    path = os.path.join(ctx.run_dir, "c03.cases.tsv")
+    for r in (vlib.read_tsv(path) if os.path.exists(path) else []):
+        if len(r) >= 5 and r[1] == "CALLN":
+            calln.setdefault(r[0], {})[r[2]] = (int(r[3]), int(r[4]), vlib.unesc(r[5]) if len(r) > 5 else "")
+        elif r[0] == "#ARITY":
+            summary = r[1:]
+    n_nodes = n_dumps = 0
+    for k, st_rows in calln.items():
+        d = progs.get(k, {})
+        seen = set()
+        for st in STAGES:
+            if st not in st_rows:
+                continue
+            n, nbad, detail = st_rows[st]
+            n_nodes += n
+            n_dumps += 1
+            if not nbad or "ill" in d:
+                continue
+            for item in detail.split(" ;; "):
+                kind = re.sub(r"\d+", "N", item.split("|")[0])
+                if kind in seen:
+                    continue      # carried over from an earlier stage
+                seen.add(kind)
+                ctx.report({"oracle": "call-count", "first_stage": st, "kind": kind},
+                           f"a call in the {st} dump of an accepted program does not have the number of arguments its callee declares: {item}",
+                           {"id": k, "src": d.get("src"), "stage": st, "calls": detail[:600]})
+    forms = {}
+    if summary is None or len(summary) < 2 or summary[0] == "no-environment":
+        ctx.broken_ties.append(("arity catalogue", f"the harness did not produce the argument-count catalogue: {summary}"))
+    else:
+        for item in summary[1].split():
+            name, _, ab = item.rpartition("=")
+            a, _, b = ab.partition("/")
+            forms[name] = int(a)
+            if int(a) == 0:
+                ctx.broken_ties.append(("arity catalogue", f"no accepted twin for call form {name}: the catalogue no longer exercises it"))
+    n_acc = n_flagged = 0
+    for k, d in progs.items():
+        ill = d.get("ill")
+        if not ill or not ill["kind"].startswith("arity:") or ill["outcome"] != "accepted":
+            continue
+        n_acc += 1
+        core = calln.get(k, {}).get("core", (0, 0, ""))
+        wt = (res.get(f"{k}|core") or ["?"])[0]
+        if core[1] > 0 and wt not in ("wt", "?"):
+            n_flagged += 1
+        else:
+            ctx.broken_ties.append(("argument count", f"{k}: accepted with a wrong argument count, but the Core dump is not flagged "
+                                    f"(count oracle: {core[1]} bad call(s); Wt: {wt})"))
+    return {"call_nodes_counted": n_nodes, "stage_dumps_counted": n_dumps,
+            "catalogue": (summary[0] if summary else ""), "catalogue_cases_per_call_form": forms,
+            "accepted_wrong_count_variants": n_acc, "of_which_flagged_by_count_oracle_and_Wt_on_Core": n_flagged}
+
+
 def run(ctx):
     ctx.extract()
     ctx.build_lean(["GomlVerif.Props.C03"] if os.path.exists(os.path.join(vlib.LEAN, "GomlVerif/Props/C03.lean")) else [])
+    if os.path.exists(os.path.join(vlib.LEAN, "GomlVerif/Props/C03Arity.lean")):
+        ctx.build_lean(["GomlVerif.Props.C03Arity"])     # Wt decides the argument count of every call form
     if not ctx.build_harness():
         return ctx.finish("proof", {"evaluations": 0, "distinct_nontrivial": 0}, [], "lake build")
     progs, feats, kinds = collect(ctx)
@@ -199,6 +263,7 @@ def run(ctx):
         else:
             ctx.report({"oracle": "ill-typed", "kind": ill["kind"], "outcome": "rejected-outside-the-typer", "stage": ill["stage"]},
                        "a program with one injected type error is rejected, but not by the typer", payload)
+    arity_cov = arity_oracle(ctx, progs, res)
     ctx.violations.sort(key=lambda v: len(v[2].get("src") or "x" * 10**6))
     cov = {
         "evaluations": n_dumps + n_ill, "distinct_nontrivial": len(distinct) + len(ill_kinds),
@@ -215,6 +280,7 @@ def run(ctx):
         "generator_features": feats, "injection_kinds": kinds,
         "impl_oracle_failures": len(ctx.violations) + sum(h["count"] for h in ctx.known_hits), "model_diffs": 0,
     }
+    cov["argument_count(c03arity.rs)"] = arity_cov
     ctx.assumptions += [
         "Wt.errs (Model/Wt.lean) is our statement of type consistency of the IR; the signature environment is dumped from the real genv/monoenv/liftenv",
         "a callee annotation with the wildcard array length (array_get/array_set) is read as 'any length', as the typer's unifier does",
